@@ -40,6 +40,34 @@ def run_pandas(c):
     return {'sources_ok': bool(ok), 'error': err}
 
 
+class RecCursor(sqlite3.Cursor):
+    """every statement HANDED to sqlite (the trace callback only reports statements sqlite could prepare)"""
+    def execute(self, sql, *args):
+        self.connection.handed.append(sql)
+        return sqlite3.Cursor.execute(self, sql, *args)
+
+    def executemany(self, sql, *args):
+        self.connection.handed.append(sql)
+        return sqlite3.Cursor.executemany(self, sql, *args)
+
+    def executescript(self, sql):
+        self.connection.handed.append(sql)
+        return sqlite3.Cursor.executescript(self, sql)
+
+
+class RecConnection(sqlite3.Connection):
+    def __init__(self, *args, **kwargs):
+        sqlite3.Connection.__init__(self, *args, **kwargs)
+        self.handed = []
+
+    def cursor(self, factory=RecCursor):
+        return sqlite3.Connection.cursor(self, factory)
+
+
+def quote_ident(name):
+    return '"' + name.replace('"', '""') + '"'
+
+
 def run_sqlite(c):
     d = tempfile.mkdtemp(prefix='c06_', dir=os.environ.get('VERIF_SCRATCH'))
     dbp = os.path.join(d, 'db.sqlite')
@@ -51,10 +79,20 @@ def run_sqlite(c):
         con.executemany('INSERT INTO t1 VALUES (%s)' % ','.join('?' * ncol), c['A'])
         con.execute('CREATE TABLE b (%s)' % ', '.join('%s TEXT' % h for h in c['hdrB']))
         con.executemany('INSERT INTO b VALUES (%s)' % ','.join('?' * len(c['hdrB'])), c['B'])
+        # tables that really HAVE the odd name (created with a quoted identifier): were the name pasted into 'SELECT * FROM {};', sqlite
+        # could prepare the statement, it would show in the trace and the query would succeed
+        made = []
+        for name in c.get('make_tables') or []:
+            try:
+                con.execute('CREATE TABLE %s (%s)' % (quote_ident(name), ', '.join('%s TEXT' % h for h in c['hdrB'])))
+                con.executemany('INSERT INTO %s VALUES (%s)' % (quote_ident(name), ','.join('?' * len(c['hdrB']))), c['B'])
+                made.append(name)
+            except (sqlite3.Error, ValueError, UnicodeError):
+                pass              # e.g. a name sqlite refuses even when quoted (NUL), or one that is `b` / `t1` in another case
         con.commit()
         con.close()
         before = sha(dbp)
-        con = sqlite3.connect(dbp)
+        con = sqlite3.connect(dbp, factory=RecConnection)
         stmts = []
         con.set_trace_callback(stmts.append)
         from rbql import rbql_sqlite
@@ -64,9 +102,10 @@ def run_sqlite(c):
         except Exception as e:
             err = EN.canon_error(e)
         con.set_trace_callback(None)
+        handed = list(con.handed)
         con.close()
         after = sha(dbp)
-        return {'sources_ok': before == after, 'error': err, 'sql': stmts}
+        return {'sources_ok': before == after, 'error': err, 'sql': stmts, 'handed': handed, 'tables': ['t1', 'b'] + made}
     finally:
         for fn in os.listdir(d):
             os.remove(os.path.join(d, fn))
@@ -97,28 +136,49 @@ def run_csv(c):
         os.rmdir(d)
 
 
+PATH_FORMS = {
+    # how the --input argument names the file <dir>/<name> (cwd = <dir>): forms that path.normalize / os.path.normpath would rewrite included
+    'abs': lambda d, fn: os.path.join(d, fn),
+    'plain': lambda d, fn: fn,
+    'dot': lambda d, fn: './' + fn,
+    'updown': lambda d, fn: 'sub/../' + fn,
+    'dslash': lambda d, fn: d + '//' + fn,
+    'dir_dot': lambda d, fn: d + '/./' + fn,
+    'dot_dslash': lambda d, fn: './/' + fn,
+}
+
+
 def run_cli(c):
-    """the command line: non-interactive (--query, output to stdout or to a default-named file) and interactive (the query typed at the
-    prompt, result saved to a default path derived from the input path): the input file is byte-identical afterwards"""
+    """the command line of either port: non-interactive (--query, output to stdout) and interactive (the query typed at the prompt, result
+    saved to a default path DERIVED FROM THE INPUT PATH as given): the input file is byte-identical afterwards"""
     import shutil
     import subprocess
     import sys
     d = tempfile.mkdtemp(prefix='c06cli_', dir=os.environ.get('VERIF_SCRATCH'))
     try:
         os.mkdir(os.path.join(d, 'home'))
-        inp = os.path.join(d, c['file_name'])
-        dl = {'TAB': '\t'}.get(c['delim'], c['delim'])
+        os.mkdir(os.path.join(d, 'sub'))
+        real = os.path.join(d, c['file_name'])
+        inp = PATH_FORMS[c.get('path_form', 'abs')](d, c['file_name'])
+        dl = {'TAB': '\t', None: ','}.get(c['delim'], c['delim'])
         data = ''.join(dl.join(r) + '\n' for r in c['A']).encode('utf-8')
-        with open(inp, 'wb') as f:
+        with open(real, 'wb') as f:
             f.write(data)
         env = dict(os.environ, HOME=os.path.join(d, 'home'), PYTHONWARNINGS='ignore')
-        args = [sys.executable, '-m', 'rbql', '--input', inp, '--delim', c['delim']]
+        if c.get('lang', 'py') == 'js':
+            args = ['node', os.path.join(os.environ.get('VERIF_REPO', '/repo'), 'rbql-js', 'cli_rbql.js'), '--input', inp]
+        else:
+            args = [sys.executable, '-m', 'rbql', '--input', inp]
+        if c['delim'] is not None:           # (None: the interactive mode detects the delimiter itself)
+            args += ['--delim', c['delim']]
         if c['interactive']:
             p = subprocess.run(args, input=(c['q'] + '\n').encode('utf-8'), stdout=subprocess.PIPE, stderr=subprocess.STDOUT, env=env, cwd=d, timeout=120)
         else:
             p = subprocess.run(args + ['--query', c['q']], stdout=subprocess.PIPE, stderr=subprocess.STDOUT, env=env, cwd=d, timeout=120)
-        after = open(inp, 'rb').read() if os.path.exists(inp) else None
-        return {'sources_ok': after == data, 'error': None, 'rc': p.returncode, 'after': None if after == data else repr(after)[:200], 'out': p.stdout.decode('utf-8', 'replace')[-200:]}
+        after = open(real, 'rb').read() if os.path.exists(real) else None
+        new_files = sorted(fn for fn in os.listdir(d) + ['sub/' + x for x in os.listdir(os.path.join(d, 'sub'))] if fn not in ('home', 'sub', c['file_name']))
+        return {'sources_ok': after == data, 'error': None, 'rc': p.returncode, 'after': None if after == data else repr(after)[:200], 'new_files': new_files,
+                'out': p.stdout.decode('utf-8', 'replace')[-200:]}
     finally:
         shutil.rmtree(d, ignore_errors=True)
 
